@@ -158,6 +158,16 @@ def ensure_built(log=print):
             else:
                 errs = [l for l in (o + e).splitlines() if "error" in l][:6]
                 info["modules"][mod] = "; ".join(errs)[:900] or "build failed"
+        # 3b. the bridge theorem (template interpreter = printer of the structured model, for all data):
+        # a *soft* obligation - its proof follows the numbering of Generated/Template.lean, so any
+        # edit of the template breaks it; the per-input comparison (gf) is then the tie, as before
+        rc, o, e = sh(["lake", "build", "MoqModel.BridgeThm"], cwd=LEAN, timeout=7200)
+        if rc == 0:
+            info["bridge"] = True
+            audit_imports.append("import MoqModel.BridgeThm")
+            audit_lines += ["#print axioms Moq.bridge", "#print axioms Moq.bridge_file"]
+        else:
+            info["bridge"] = "; ".join([l for l in (o + e).splitlines() if "error" in l][:3])[:600] or "build failed"
         audit = os.path.join(LEAN, "Audit.lean")
         open(audit, "w").write("\n".join(audit_imports) + "\n" + "\n".join(audit_lines) + "\n")
         if audit_lines:
